@@ -72,10 +72,7 @@ def firesSpecSpread (s e : Int) (st : Step) : Bool :=
   decide ((s ≤ st.s.m ∧ st.s.m ≤ e) ∨ (s ≤ st.e.m ∧ st.e.m ≤ e))
 def shortStep (st : Step) : Bool := (datesOf st).length < 365
 
-/-- C07 ("n months starting on the first of a month"): the start of the calendar month after a date that is the
-    first of a month. `Date.increasedByMonth` equals it on such dates (statement checked in the audit notes:
-    `C07_month_step`; `C07_valid` proves the `d = 1` part). -/
-def nextMonthStart (t : Date) : Date := if t.m = 12 then ⟨t.y + 1, 1, 1⟩ else ⟨t.y, t.m + 1, 1⟩
+-- (`nextMonthStart` is defined in Model/DatePred.lean; theorems C07_month_step / C07_month_steps)
 
 /-- C07: a step of `n` months that starts on the first of a month consists of `n` whole calendar months, i.e. the
     day after its end is the first of the month `n` months later. Steps not starting on a first are skipped
